@@ -100,7 +100,7 @@ impl Context
                 use std::path;
 
                 let next_reference_id =
-                    Context::read_cached_next_reference_id(&loaded_config, config_dir);
+                    Context::read_cached_next_reference_id(&loaded_config, config_dir)?;
 
                 let mut loaded_context = Self {
                     config: loaded_config,
@@ -150,20 +150,23 @@ impl Context
     /// # Returns
     ///
     /// The cached next reference ID, if one exists.
-    fn read_cached_next_reference_id(config: &Config, directory_path: &str) -> Option<u32>
+    fn read_cached_next_reference_id(
+        config: &Config,
+        directory_path: &str,
+    ) -> Result<Option<u32>, String>
     {
         let cache_path = std::path::Path::new(directory_path).join(Context::CACHE_FILENAME);
 
-        if !config.use_cache || !cache_path.exists()
+        if !config.use_cache
         {
-            return None;
+            return Ok(None);
         }
 
-        if let Ok(cache_yaml) = std::fs::read_to_string(cache_path)
+        match std::fs::read_to_string(cache_path)
         {
-            match serde_yaml::from_str::<Cache>(cache_yaml.as_str())
+            Ok(cache_yaml) => match serde_yaml::from_str::<Cache>(cache_yaml.as_str())
             {
-                Ok(loaded_cache) => Some(loaded_cache.next_reference_id),
+                Ok(loaded_cache) => Ok(Some(loaded_cache.next_reference_id)),
                 Err(e) =>
                 {
                     log::warn!(
@@ -171,17 +174,27 @@ impl Context
                         Context::CACHE_FILENAME,
                         e
                     );
-                    None
+                    Ok(None)
                 },
-            }
-        }
-        else
-        {
-            log::warn!(
-                "[ref: 32] Failed to read lock file {}",
-                Context::CACHE_FILENAME
-            );
-            None
+            },
+
+            Err(e) if e.kind() == std::io::ErrorKind::NotFound => Ok(None),
+
+            /* The lock file may well exist, so the IDs it protects are unknown: recalculating
+             * the next reference from the code could hand out an ID that was used before.
+             */
+            Err(e) =>
+            {
+                log::warn!(
+                    "[ref: 32] Failed to read lock file {}",
+                    Context::CACHE_FILENAME
+                );
+                Err(format!(
+                    "Failed to read lock file {}: {}",
+                    Context::CACHE_FILENAME,
+                    e
+                ))
+            },
         }
     }
 
